@@ -2,16 +2,16 @@
 # seedverify.sh <ID> <variant>: re-verify a sub-agent's seeded change in its scratch worktree /tmp/seed/<ID>:
 # applies, builds both modules, runs both unedited suites, runs the demonstration with and without the change.
 export GOFLAGS=-mod=mod GOPROXY=off GOSUMDB=off GOTOOLCHAIN=local
-id=$1; v=$2; sfx=${3:-out}; wt=/tmp/seed/$id; out=/tmp/seed/$id-$sfx/$v
+id=$1; v=$2; sfx=${3:-out}; base=${SEEDBASE:-/tmp/seed}; wt=$base/$id; out=$base/$id-$sfx/$v
 cd $wt || exit 2
 git checkout -q -- . ; git clean -fdq
 git apply $out/patch.diff || { echo "SEEDVERIFY $id/$v patch-does-not-apply"; exit 2; }
 build=ok; (go build ./... && cd learn && go build ./...) >/dev/null 2>&1 || build=FAIL
 suite=ok
-(go test -vet=off -count=1 ./... 2>&1; cd learn && go test -vet=off -count=1 ./... 2>&1) | grep -E '^(FAIL|--- FAIL|panic)' | cut -c1-160 | head -5 > /tmp/seed/$id-$sfx/$v.suite.txt
-[ -s /tmp/seed/$id-$sfx/$v.suite.txt ] && suite=FAIL
-W=$wt $(head -1 $out/demo.sh | grep -q bash && echo bash || echo sh) $out/demo.sh $wt > /tmp/seed/$id-$sfx/$v.demo-with.txt 2>&1; with=$?
+(go test -vet=off -count=1 ./... 2>&1; cd learn && go test -vet=off -count=1 ./... 2>&1) | grep -E '^(FAIL|--- FAIL|panic)' | cut -c1-160 | head -5 > $base/$id-$sfx/$v.suite.txt
+[ -s $base/$id-$sfx/$v.suite.txt ] && suite=FAIL
+W=$wt $(head -1 $out/demo.sh | grep -q bash && echo bash || echo sh) $out/demo.sh $wt > $base/$id-$sfx/$v.demo-with.txt 2>&1; with=$?
 git checkout -q -- . ; git clean -fdq
-W=$wt $(head -1 $out/demo.sh | grep -q bash && echo bash || echo sh) $out/demo.sh $wt > /tmp/seed/$id-$sfx/$v.demo-without.txt 2>&1; without=$?
+W=$wt $(head -1 $out/demo.sh | grep -q bash && echo bash || echo sh) $out/demo.sh $wt > $base/$id-$sfx/$v.demo-without.txt 2>&1; without=$?
 git checkout -q -- . ; git clean -fdq
 echo "SEEDVERIFY $id/$v build=$build suite=$suite demo_with_change_exit=$with demo_without_exit=$without"
